@@ -192,7 +192,7 @@ def run_cases(chk, cases):
         if not sel:
             continue
         cfgs = {"swift": {"prefix": prefix}, "kotlin": {"prefix": prefix}} if prefix else None
-        langs = [l for l in (common.LANGS if not prefix else ["swift", "kotlin"]) if not (folder and l == "go")]      # Go has no folder mode
+        langs = list(common.LANGS if not prefix else ["swift", "kotlin"])
         extra = [elsewhere_files(cases[i]["case"]) for i in sel] if folder else None
         results = observe.generate([srcs[i] for i in sel], langs=langs, cfgs=cfgs, multi=folder, extra_files=extra)
         for i, per in zip(sel, results):
@@ -228,7 +228,9 @@ def run_cases(chk, cases):
 
 IMPORTED_SHAPES = {"plain": "{t}", "vec": "Vec<{t}>", "option": "Option<{t}>", "map_key": "HashMap<{t}, String>", "map_val": "HashMap<String, {t}>",
                    "gen_first": "Pair<{t}, String>", "gen_last": "Pair<String, {t}>", "gen_nested_first": "Vec<Pair<Option<{t}>, Vec<u32>>>",
-                   "map_key_nested": "Vec<HashMap<{t}, Vec<u32>>>"}
+                   "map_key_nested": "Vec<HashMap<{t}, Vec<u32>>>",
+                   # the container itself is written with a crate-qualified path
+                   "qualified_generic": "provider::Wrap<{t}>", "qualified_generic_nested": "Option<provider::Wrap<Vec<{t}>>>"}
 
 
 def imported(chk):
@@ -242,12 +244,12 @@ def imported(chk):
     for c in res.replays:
         case = c["case"]
         ren = '#[serde(rename = "TargetRenamed")]\n' if case["renamed"] else ""
-        prov = f"#[typeshare]\n{ren}pub struct Target {{ pub t: u32 }}\n#[typeshare]\npub struct Other {{ pub o: u32 }}\n"
+        prov = f"#[typeshare]\n{ren}pub struct Target {{ pub t: u32 }}\n#[typeshare]\npub struct Other {{ pub o: u32 }}\n#[typeshare]\npub struct Wrap<T> {{ pub w: T }}\n"
         use = {"use_single": "use provider::Target;\n", "use_group": "use provider::{Other, Target};\n", "qualified": ""}[case["form"]]
         t = "provider::Target" if case["form"] == "qualified" else "Target"
         cons = (use + f"#[typeshare]\npub struct Consumer {{ pub only_ref: {IMPORTED_SHAPES[case['shape']].format(t=t)}, pub keep: u32 }}\n"
                 "#[typeshare]\npub struct Pair<A, B> { pub a: A, pub b: B }\n")
-        for lang in (["swift", "kotlin"] if case["prefix"] else [l for l in common.LANGS if l != "go"]):          # Go has no folder mode
+        for lang in (["swift", "kotlin"] if case["prefix"] else common.LANGS):
             cfg = dict(observe.DEFAULT_CFG[lang], **({"prefix": case["prefix"]} if case["prefix"] else {}))
             jobs.append({"id": len(jobs), "lang": lang, "multi_file": True, "cfg": cfg,
                          "files": [{"src": cons, "crate": "consumer", "path": "consumer/src/lib.rs", "out": "consumer"},
@@ -269,7 +271,7 @@ def imported(chk):
             continue
         host = observe.find_def(oc, case["prefix"] + "Consumer", "Consumer")
         m = [x for x in (host or {}).get("members", []) if x["key"] == "only_ref"]
-        ref = target_leaf(m[0]["ty"], {case["prefix"] + "Pair", "Pair", "String"}) if m else None
+        ref = target_leaf(m[0]["ty"], {case["prefix"] + "Pair", "Pair", "String", case["prefix"] + "Wrap", "Wrap"}) if m else None
         if ref is None:
             continue
         events.append({"lang": lang, "site": "imported:" + case["shape"], "ref": ref, "defs": [d["name"] for d in oc["defs"]] + [d["name"] for d in op["defs"]],
@@ -283,7 +285,7 @@ def imported(chk):
         e = events[b - 1]
         lang, case, cons = meta[b - 1]
         exp = e["prefix"] + (e["target"]["rename"] or e["target"]["ident"])
-        chk.mismatch(f"C09/{lang}+folder/imported/{case['form']}/only-reference={case['shape']}/{'renamed' if case['renamed'] else 'plain'}/{'prefix' if e['prefix'] else 'noprefix'}/"
+        chk.mismatch(f"{chk.pid}/{lang}+folder/imported/{case['form']}/only-reference={case['shape']}/{'renamed' if case['renamed'] else 'plain'}/{'prefix' if e['prefix'] else 'noprefix'}/"
                      f"def={'present' if exp in e['defs'] else 'absent'}",
                      f"{lang}: the consumer crate's only reference to provider::Target ({case['shape']}) is spelled `{e['ref']}`, definition name required `{exp}`; "
                      f"definitions of the run: {e['defs']}", {"case": case, "lang": lang, "site": "imported", "src": cons}, exp, e["ref"])
@@ -336,6 +338,8 @@ def run(chk):
                          {"case": case, "lang": lang, "site": site}, exp, e["ref"])
             continue
         where = lang + ("+folder" if case.get("mode") == "folder" else "") + (":" + case["elsewhere"].replace("_later_crate", "") if case.get("elsewhere", "none") != "none" else "")
+        if lang == "go" and form == "renamed-unprefixed" and not defined:
+            where = "go"          # the listed Go findings (definition under the original name): one root cause, whatever the mode or the other crates
         kind_dim = case["kind"]
         if kind_dim in ("sas_struct", "sas_enum") and sib_key(lang, dict(case, kind="-"), site) in bad_alias:
             kind_dim = "alias"
